@@ -86,6 +86,7 @@ package bbolt
 //@   requires db.meta0 != nil && db.meta1 != nil
 //@   panics when !metavalid(db.meta0) && !metavalid(db.meta1)
 //@   ensures [one] result == db.meta0 || result == db.meta1
+//@   ensures [def] result == dbmeta(db)
 //@   ensures [valid] metavalid(result)
 //@   ensures [newest] metavalid(db.meta0) && metavalid(db.meta1) ==> result.txid >= db.meta0.txid && result.txid >= db.meta1.txid
 //@   ensures [fallback0] !metavalid(db.meta1) ==> result == db.meta0
@@ -117,3 +118,50 @@ package bbolt
 //@   ensures [invalid] err != nil ==> err == berrors.ErrInvalid && sz == 0
 //@   ensures [frommeta] err == nil ==> sz == db.pageSize || (metavalid(metaof(lastpage)) && sz == metaof(lastpage).pageSize)
 //@   modifies nreads, lastreadoff, lastpage
+
+// ---------------------------------------------------------------- disk primitives
+
+//@ func ops.writeAt
+//@   trusted
+//@   returns (n, err)
+//@   ensures nwrites == old(nwrites) + 1 && unsynced == old(unsynced) + 1 && lastwriteoff == off && lastwritelen == len(b)
+//@   modifies nwrites, unsynced, lastwriteoff, lastwritelen
+
+//@ func fdatasync
+//@   trusted
+//@   returns (err)
+//@   ensures err == nil ==> unsynced == 0 && nsyncs == old(nsyncs) + 1
+//@   ensures err != nil ==> unsynced == old(unsynced) && nsyncs == old(nsyncs)
+//@   modifies unsynced, nsyncs
+
+// ---------------------------------------------------------------- transaction life cycle (C01 C03 C06 C08)
+
+// dbmeta(db): the meta DB.meta() selects: the one with the higher txid if it is valid, else the other
+//@ pure func dbmeta(db *DB) *common.Meta = db.meta1.txid > db.meta0.txid ? (metavalid(db.meta1) ? db.meta1 : db.meta0) : (metavalid(db.meta0) ? db.meta0 : db.meta1)
+
+//@ func (*Tx).init
+//@   props C03 C02 C06
+//@   requires db != nil && db.meta0 != nil && db.meta1 != nil && (metavalid(db.meta0) || metavalid(db.meta1))
+//@   requires tx != nil && dbmeta(db).txid < 18446744073709551615
+//@   ensures [db] tx.db == db && tx.meta != nil && tx.meta != db.meta0 && tx.meta != db.meta1
+//@   ensures [txid] tx.meta.txid == dbmeta(db).txid + (tx.writable ? 1 : 0)
+//@   ensures [copy] tx.meta.pgid == dbmeta(db).pgid && tx.meta.freelist == dbmeta(db).freelist && tx.meta.root.root == dbmeta(db).root.root && tx.meta.root.sequence == dbmeta(db).root.sequence && tx.meta.pageSize == dbmeta(db).pageSize
+//@   ensures [pages] tx.writable ==> tx.pages != nil && len(tx.pages) == 0
+//@   ensures [shared] db.meta0.txid == old(db.meta0.txid) && db.meta1.txid == old(db.meta1.txid) && tx.writable == old(tx.writable)
+
+//@ func (*Tx).close
+//@   props C03 C08 C10
+//@   requires tx.db != nil && tx.writable ==> tx.db.rwlock.held
+//@   requires tx.db != nil && !tx.writable ==> tx.db.mmaplock.rcount >= 1
+//@   ensures [closed] tx.db == nil
+//@   ensures [unlocked] old(tx.db) != nil && old(tx.writable) ==> !old(tx.db).rwlock.held && old(tx.db).rwtx == nil
+//@   ensures [once] old(tx.db) != nil && old(tx.writable) ==> calls("sync.(*Mutex).Unlock", old(tx.db).rwlock) == old(calls("sync.(*Mutex).Unlock", tx.db.rwlock)) + 1
+//@   ensures [noop] old(tx.db) == nil ==> calls("sync.(*Mutex).Unlock", 0) == old(calls("sync.(*Mutex).Unlock", 0))
+//@   ensures [reader] old(tx.db) != nil && !old(tx.writable) ==> calls("(*DB).removeTx", old(tx.db)) == old(calls("(*DB).removeTx", tx.db)) + 1
+
+//@ func (*DB).removeTx
+//@   props C02 C10 C03
+//@   requires db.mmaplock.rcount >= 1 && tx.meta != nil
+//@   ensures [runlock] db.mmaplock.rcount == old(db.mmaplock.rcount) - 1
+//@   ensures [metalock] db.metalock.held == old(db.metalock.held)
+//@   ensures [unregister] db.freelist != nil ==> calls("freelist.Interface.RemoveReadonlyTXID", db.freelist) == old(calls("freelist.Interface.RemoveReadonlyTXID", db.freelist)) + 1
